@@ -44,6 +44,32 @@ for base, names in ((10, GIDS), (20, NIDS), (30, CLASSES), (36, TYPES), (40, REL
 assert len(set(SYM.values())) == len(SYM)
 UNSYM = {v: k for k, v in SYM.items()}
 
+# The strings the LIBRARY sees.  Histories, replays and the Coq terms use the symbolic names above; at the
+# boundary to the real code every graph id, node id, class, type, relation and value is replaced by a real string
+# from vocabularies that contain SUBSTRING-RELATED members ('site-1' / 'site-10' / 'site-1-copy', 'a' / 'aa',
+# 'Port' / 'TrunkPort', 'has' / 'has-a'): identifiers are compared as whole strings, never by containment.
+REAL = {'g0': 'site-1', 'g1': 'site-10', 'g2': 'site-1-copy', 'g3': 's',
+        'n0': 'a', 'n1': 'aa', 'n2': 'aa-b', 'n3': 'b', 'n4': 'ab', 'n5': 'aab',
+        'c0': 'Node', 'c1': 'NodeX', 'c2': 'Nod', 't0': 'Port', 't1': 'TrunkPort',
+        'r0': 'has', 'r1': 'has-a', 'v0': 'v', 'v1': 'vv', 'v2': 'v-2', 'v3': 'x'}
+UNREAL = {v: k for k, v in REAL.items()}
+assert len(UNREAL) == len(REAL) and not (set(UNREAL) & set(SYM))
+
+
+def R(x):
+    """symbolic -> real strings, everywhere except dictionary keys (property names stay as they are)"""
+    if isinstance(x, str):
+        return REAL.get(x, x)
+    if isinstance(x, (list, tuple)):
+        return [R(y) for y in x]
+    if isinstance(x, dict):
+        return {k: R(v) for k, v in x.items()}
+    return x
+
+
+def sym(x):
+    return SYM[UNREAL.get(x, x)]
+
 EXN = {'PropertyGraphQueryException': 'EQuery', 'PropertyGraphImportException': 'EImport', 'KeyError': 'EKey',
        'AssertionError': 'EAssert', 'AttributeError': 'EAttr', 'RuntimeError': 'ERuntime', 'TypeError': 'EType'}
 
@@ -118,7 +144,7 @@ def cv(v):
     if v is None:
         return None
     if isinstance(v, str):
-        return SYM[v]
+        return sym(v)
     if isinstance(v, (list, tuple)):
         return ['L', [cv(x) for x in v]]
     if isinstance(v, dict):     # networkx 'contraction' edge attribute {(prev_w, prev_x): edge dict}
@@ -172,18 +198,19 @@ class Backend:
         if not hasattr(self, 'handles'):
             self.handles = {}
         if (g, handle) not in self.handles:
-            self.handles[(g, handle)] = self.cls(graph_id=g, importer=self.imp)
+            self.handles[(g, handle)] = self.cls(graph_id=R(g), importer=self.imp)
         return self.handles[(g, handle)]
 
     def importer_call(self, op):
         """['imp', g, nodes, edges, how, fmt]: the four importer entry points on a serialised graph"""
         import json as _json, tempfile, os as _os
         _, g, nodes, edges, how, fmt = op
+        g = R(g)
         G = self.nx.Graph()
         for key, d in nodes:
-            G.add_node(str(key), **dict(d))
+            G.add_node(str(key), **R(dict(d)))
         for a, b, d in edges:
-            G.add_edge(str(a), str(b), **dict(d))
+            G.add_edge(str(a), str(b), **R(dict(d)))
         text = '\n'.join(self.nx.generate_graphml(G)) if fmt == 'graphml' else _json.dumps(self.nx.readwrite.node_link_data(G))
         if how == 'string':
             self.imp.import_graph_from_string(graph_string=text, graph_id=g)
@@ -205,9 +232,9 @@ class Backend:
     def mk_nx(self, nodes, edges):
         G = self.nx.Graph()
         for key, d in nodes:
-            G.add_node(key, **dict(d))
+            G.add_node(key, **R(dict(d)))
         for a, b, d in edges:
-            G.add_edge(a, b, **dict(d))
+            G.add_edge(a, b, **R(dict(d)))
         return G
 
     def call(self, op, step=0):
@@ -216,13 +243,14 @@ class Backend:
         alt = step % 5 == 3
         if k == 'imp':
             return self.importer_call(op)
+        sop, op = op, [op[0]] + [R(a) for a in op[1:]]       # the library sees the real strings
         if k == 'import':
             self.storage.add_graph(graph_id=op[1], graph=self.mk_nx(op[2], op[3]))
             return ['unit']
         if k == 'import_direct':
             self.storage.add_graph_direct(graph_id=op[1], graph=self.mk_nx(op[2], op[3]))
             return ['unit']
-        G = self.graph(op[1], 1 if alt else 0)
+        G = self.graph(sop[1], 1 if alt else 0)
         if k == 'del_graph':
             if alt:
                 self.imp.delete_graph(graph_id=op[1])
@@ -282,9 +310,9 @@ class Backend:
         if k == 'graph_exists':
             return ['bool', bool(G.graph_exists())]
         if k == 'matching':
-            return ['vals', sort_vals([cv(x) for x in G.find_matching_nodes(other_graph=self.graph(op[2], 1 if alt else 0))])]
+            return ['vals', sort_vals([cv(x) for x in G.find_matching_nodes(other_graph=self.graph(sop[2], 1 if alt else 0))])]
         if k == 'merge':
-            G.merge_nodes(op[2], self.graph(op[3], 1 if alt else 0), copy.deepcopy(op[4]))
+            G.merge_nodes(op[2], self.graph(sop[3], 1 if alt else 0), copy.deepcopy(op[4]))
             return ['unit']
         raise ValueError(op)
 
@@ -294,7 +322,7 @@ class Backend:
         out = []
         for gid, G in self.storage.storage_instance.graphs.items():
             if len(G.nodes) > 0:
-                out.append([SYM[gid], canon_graph(G)])
+                out.append([sym(gid), canon_graph(G)])
         return sorted(out, key=lambda e: e[0])
 
 
@@ -306,8 +334,8 @@ def counters(b):
             return int(st.start_id)
         return max([int(n) for n in st.graphs.nodes] + [0]) + 1          # allocator not observable: next free id
     if hasattr(st, 'graph_node_ids'):
-        return sorted([SYM[g], int(v)] for g, v in st.graph_node_ids.items())
-    return sorted([SYM[g], max([int(n) for n in G.nodes] + [0]) + 1] for g, G in st.graphs.items())
+        return sorted([sym(g), int(v)] for g, v in st.graph_node_ids.items())
+    return sorted([sym(g), max([int(n) for n in G.nodes] + [0]) + 1] for g, G in st.graphs.items())
 
 
 def probe(b, gids):
@@ -318,7 +346,7 @@ def probe(b, gids):
         G = b.graph(g, 2)
         d = {}
         for name, f in [('ids', lambda: G.list_all_node_ids())] + \
-                       [(c, (lambda c=c: G.get_all_nodes_by_class(label=c))) for c in CLASSES]:
+                       [(c, (lambda c=c: G.get_all_nodes_by_class(label=R(c)))) for c in CLASSES]:
             try:
                 d[name] = sort_vals([cv(x) for x in f()])
             except BaseException as e:
@@ -655,8 +683,8 @@ class Shadow:
             a, b, r = rng.choice(s)
             if rng.random() < 0.5:
                 a, b = b, a
-            if rng.random() < 0.12:
-                r = rng.choice(RELS)
+            if rng.random() < 0.3:
+                r = rng.choice(RELS)       # possibly the WRONG kind: the kind-checked link operations must refuse
             return a, b, r
         return rng.choice(nids), rng.choice(nids), rng.choice(RELS)
 
